@@ -18,7 +18,7 @@ CONSTANTS
   EarlyReturn = FALSE
   MonoGE = TRUE
   InitJoined = TRUE
-INVARIANTS TypeOK NoReuse C09_GapFree C09_Opens C10_OpenedStay
+INVARIANTS RefinesMech TypeOK NoReuse C09_GapFree C09_Opens C10_OpenedStay
 PROPERTIES C09_Monotone
 VIEW view
 CHECK_DEADLOCK FALSE
